@@ -32,6 +32,12 @@ def make_proposals(kind, params, rng):
         return [P.SSAdaptiveNormal(params)]
     if kind == 'at':
         return [P.ATAdaptiveNormal(params, adaptation_duration=rng.choice([6, 30]), diagonal=rng.random() < .5)]
+    if kind == 'solid':
+        # right ascension / declination in degrees: the proposal converts units on the way in and out
+        props = [P.IsotropicSolidAngle(params[0], params[1], kappa=40., radec=True, degs=True)]
+        if len(params) > 2:
+            props.append(P.Normal(params[2:], cov=[1.0] * (len(params) - 2)))
+        return props
     if kind == 'bounded':
         return [P.BoundedNormal(params, {p: (-20., 20.) for p in params}, cov=[1.5 for _ in params])]
     if kind == 'cw':
@@ -83,6 +89,10 @@ class Config:
             self.nparams = n + 1
             self.params = ['a%d' % i for i in range(1, n + 1)] + ['k']
             self.comps = [[i] for i in range(n)]
+            self.box = 20.0
+
+        if self.prop_kind != 'td' and self.nparams >= 2 and self.seed % 5 == 0:
+            self.prop_kind = 'solid'          # (no extra draw from rng)
             self.box = 20.0
 
     def describe(self):
